@@ -932,7 +932,12 @@ func (engine *Engine) readConnBlocking(conn *Conn, parser *Parser, decrease func
 		if err != nil {
 			return
 		}
-		_ = parserCloser.Parse((*pbuf)[:n])
+		err = parserCloser.Parse((*pbuf)[:n])
+		if err != nil {
+			// as in the other reading loops: the connection is failed.
+			logging.Debug("parser.Read failed: %v", err)
+			return
+		}
 		if conn.Trasfered {
 			parser.onClose = nil
 			parser.CloseAndClean(nil)
